@@ -363,6 +363,13 @@ def run_behavior_class(ctx: Ctx, res: Result, pipeline: S.Sym, roles: dict[str, 
     else:
         o = hits[0]
         rj = f_or([r.cond for r in rejections(sym)])
+        known = {f"bool({q})" for q in init.param_names} | {f"{q} is None" for q in init.param_names} | {f"bool({v})" for v in bound.values()} | {f"{v} is None" for v in bound.values()}
+        foreign = sorted(a for a in atoms_of(rj) if a not in known)
+        if foreign:
+            # the conditions under which the constructor raises are not expressed over its arguments: a value travelled
+            # through something the symbolic run does not model, the decision table cannot be read off
+            res.undecide("C13.R5", construct, f"the conditions under which {ci.name} rejects its arguments depend on values the symbolic run could not relate to the constructor arguments ({', '.join(foreign[:3])}): the decision table of the verb check was not extracted", where(init, init.node))
+            return True
         res.add("C13.R5", construct, False, f"{ci.name} can be constructed with should_not combined with another verb: it raises under `{show(rj)[:200]}`, required: `{show(want)}` (should_not combined with should / should_only must be rejected)", where_o(o), kind="decision-table")
     return ok
 
